@@ -118,6 +118,35 @@ B5 = {
  "C19-6": ("C19", ">= 2 nodes behind one SNI-proxy address: connect to node A, then to another endpoint at the same address", "TLS config (with session cache) memoised per resolved address in proxycore.Connect: later nodes get A's SNI, resumed sessions skip verification"),
  "C20-6": ("C20", "an invalid value (unknown version name, version above max, num-conns 0, heartbeat >= idle) that comes from the YAML file", "checks moved into a Validate() hook that runs before the file is applied: the proxy starts and serves"),
 }
+B6 = {
+ "C01-7": ("C01", "a client with more than 1024 responses queued that stops reading for longer than the new client write timeout (5 s) and then resumes", "Conn.Write gives up on a full queue after a timeout; the response paths ignore its error: responses dropped, client stays connected"),
+ "C01-8": ("C01", "a proxy-made error (query plan exhausted, non-idempotent connection loss) queued for a client while another request is accepted before the write loop encodes it (pipelined requests during a backend outage)", "request objects recycled through a sync.Pool: the queued error is written with the next request's stream id"),
+ "C03-7": ("C03", "an uncompressed QUERY/EXECUTE/BATCH whose parameter section exceeds 48 bytes, answered with a retryable error", "log argument built with append(params[:48], \"...\") on a slice aliasing the frame body: three body bytes overwritten on every re-send"),
+ "C04-7": ("C04", "a prepared id never prepared through this proxy, behind it a conditional write; one successful EXECUTE (rows: [applied]), then an EXECUTE that fails", "ids 'learnt' as idempotent SELECTs from the first ROWS result: conditional write re-sent"),
+ "C04-9": ("C04", "the new --request-timeout option enabled (off by default), a backend slower than the timeout, a non-graph non-idempotent request", "timeout handler looks at a state that is only set for graph requests and PREPAREs: request re-sent although the slow node may still apply it"),
+ "C05-7": ("C05", "an idempotent request whose connection is lost while it is pending, then UNAVAILABLE / an eligible READ_TIMEOUT / a batch-log WRITE_TIMEOUT from the next host", "connection loss counted into retryCount (for a log line): the one policy retry is used up"),
+ "C05-9": ("C05", "an EXECUTE traversing >= 2 hosts that all lack the statement, the first answering a move-on error after its re-prepare", "re-prepare allowance counted per request, not per host: later hosts are re-prepared and skipped, 'exhausted query plan'"),
+ "C06-8": ("C06", "comment markers inside a quoted identifier or a $-string, e.g. VALUES (1, $/*$, now(), $*/$)", "new comment stripping skips only '...' literals: the text between the markers disappears, hiding non-idempotent constructs"),
+ "C06-9": ("C06", "in one process: a look-alike that means something else (\"NOW\"() user function, \\v / NBSP whitespace) classified before the statement itself", "verdicts memoised under a key that folds case and whitespace everywhere: the first text of a pair decides both"),
+ "C09-8": ("C09", "a QUERY frame carrying a graph-source custom payload whose text is a system-table SELECT or USE", "graph fast path forwards without parsing: system reads and USE reach the backend"),
+ "C10-7": ("C10", ">= 2 different system queries pipelined on one connection, the writer lagging the reader", "rows built in a per-connection buffer that is reused while an earlier answer is still queued: answers carry the next query's values"),
+ "C11-7": ("C11", "a BATCH body cut or corrupted inside the content of a positional value (announced length beyond the remaining bytes)", "values skipped with Seek, which may move past the end: the next BytesSince panics / reads behind the frame"),
+ "C12-7": ("C12", "override configured, >= 2 overridden requests of the same kind decoded before the backend writer encodes the first (pipelined / concurrent)", "partially decoded messages pooled and released at the end of Receive although the override frame still points at them: writes go out with the next request's content"),
+ "C13-6": ("C13", "two READY-producing requests (STARTUP, REGISTER) with different stream ids pipelined on one connection", "READY encoded once into a per-connection buffer whose stream id bytes are rewritten while an earlier READY is still queued"),
+ "C13-8": ("C13", "an OPTIONS frame in a known version above the configured maximum or below v3", "bodiless-OPTIONS fast path placed in front of the version gate: answered SUPPORTED"),
+ "C14-9": ("C14", "a registered client whose outgoing queue is full (it pipelined thousands of requests and reads late) when a schema change arrives", "event delivery made non-blocking: the event is skipped for that client, which stays connected"),
+ "C15-9": ("C15", "membership shrinks while the plan counter is at or above the new host count, then >= 2 plans", "counter reset inside the host count with a CAS helper: consecutive plans start at the same host"),
+ "C15-10": ("C15", "control connection lost together with a membership change, or a reconnect to a node whose system.peers is incomplete", "hosts missing from a freshly reconnected node are kept but forgotten by the cluster: removed host never leaves the plans / host twice"),
+ "C16-6": ("C16", "host removed, listed again within the new 5 s drain period, then the drain timer fires", "drain timer deletes the pool by host key although the re-add kept it: the host is in every plan with no pool, for good"),
+ "C16-7": ("C16", "STATUS_CHANGE DOWN events for the other hosts, then the control connection lost before the matching UP events", "hosts marked down are passed over when reconnecting and UP can only arrive over the control connection: never fails over"),
+ "C17-9": ("C17", "a backend UNPREPARED error whose id length field claims more than the body's capacity", "id read straight from the raw body trusting its length field: slice bounds panic, process dies"),
+ "C18-7": ("C18", "a heartbeat tick on a pooled connection that has delivered a forwarded response (short heartbeat interval, or a long run)", "lastResponse time written by the read loop and read by the heartbeat goroutine without synchronisation"),
+ "C18-9": ("C18", ">= 2 connections per host and two goroutines sending to the same pool at once", "round-robin cursor 'guarded by connsMu' updated under the read lock in leastBusyConn"),
+ "C19-5": ("C19", "one genuine server accepted through any endpoint of the bundle, then an impostor whose leaf copies the genuine leaf's SubjectKeyId", "verification results cached per SubjectKeyId: self-signed / wrong-CA leaf accepted"),
+ "C19-7": ("C19", "a second bundle with a different CA loaded in the same process", "system root pool built once and shared; every bundle's CA is appended to it: servers under the other bundle's CA accepted"),
+ "C20-7": ("C20", "protocol-version spelled v4 explicitly together with max-protocol-version v3", "'default version follows a lowered max' cannot tell the default from an explicit v4: starts and speaks v3"),
+}
+B5.update(B6)
 B4.update(B5)
 B3.update(B4)
 B2.update(B3)
@@ -146,7 +175,7 @@ for sid in sorted(os.listdir(os.path.join(V, "seeded"))):
         demos = sorted(f for f in os.listdir(d) if f not in ("patch.diff", "meta.json", "notes.md"))
         meta = {
             "id": sid, "breaks_property": prop,
-            "origin": "fresh sub-agent given only the property text and a scratch worktree of /repo (commit %s)" % ("19163b6" if sid in B5 else "78cb41b" if sid in B4 else "98f4792" if sid in B3 else "2fe6b89"),
+            "origin": "fresh sub-agent given only the property text and a scratch worktree of /repo (commit %s)" % ("19163b6 (round 6)" if sid in B6 else "19163b6" if sid in B5 else "78cb41b" if sid in B4 else "98f4792" if sid in B3 else "2fe6b89"),
             "needs_to_manifest": needs, "effect": effect, "demonstration": demos,
             "confirmed": "bin/seedconfirm in the scratch worktree: patch applies, go build ok, existing suite passes with it (in a private network namespace), demonstration FAILS with the patch and PASSES without it",
             "checks_run": "bin/seedtest seeded/%s/patch.diff quick %s ; bin/seedmatrix quick" % (sid, prop),
